@@ -62,6 +62,24 @@ fn programs() -> Vec<Prog> {
             next: vec![3, 2, 3, 4, 4],
             step_out: vec![None, Some(3), Some(3), None, None],
         },
+        // a subroutine that calls another one: leaving the outer one passes the inner one's return on the way
+        Prog {
+            name: "nested-subroutines",
+            source: ".test \"t\" {\njsr a\ninx\nbrk\na:\niny\njsr b\niny\nrts\nb:\ninx\nrts\n}\n",
+            lines: vec![2, 6, 7, 11, 12, 8, 9, 3, 4],
+            x: vec![0, 0, 0, 0, 1, 1, 1, 1, 2],
+            next: vec![7, 2, 5, 4, 5, 6, 7, 8, 8],
+            step_out: vec![None, Some(7), Some(7), Some(5), Some(5), Some(7), Some(7), None, None],
+        },
+        // the same subroutine called twice: the second stop at its breakpoint is at the same address as the first
+        Prog {
+            name: "subroutine-called-twice",
+            source: ".test \"t\" {\njsr s\njsr s\nbrk\ns:\ninx\nrts\n}\n",
+            lines: vec![2, 6, 7, 3, 6, 7, 4],
+            x: vec![0, 0, 1, 1, 1, 2, 2],
+            next: vec![3, 2, 3, 6, 5, 6, 6],
+            step_out: vec![None, Some(3), Some(3), None, Some(6), Some(6), None],
+        },
     ]
 }
 
@@ -136,6 +154,10 @@ enum Step {
     StepIn,
     Next,
     StepOut,
+    /// the breakpoint stays; `continue` until the line is not reached any more, checking every stop
+    Continues,
+    /// `stepIn` from the breakpoint to the end of the test, checking every stop
+    Walk,
 }
 
 /// One scenario: breakpoint at executed-position `bp_idx`, then one step of the given kind.
@@ -229,11 +251,48 @@ fn scenario(bin: &str, dir: &Path, port: u16, p: &Prog, bp_idx: usize, step: Opt
         if !matches {
             problems.push(("dap:breakpoint:evaluate".to_string(), format!("{}: at line {} evaluate(cpu.x) = {:?}, the CPU's X is {}", p.name, bp_line, x, expect)));
         }
-        if let Some(st) = step {
+        let check_stop = |dap: &mut Dap, problems: &mut Vec<(String, String)>, cmd: &str, t: usize, n: usize| {
+            if !dap.event("stopped") {
+                problems.push((format!("dap:{}:no-stopped-event", cmd), format!("{}: no stopped event after {} #{} (breakpoint on line {})", p.name, cmd, n, bp_line)));
+                return false;
+            }
+            let line = dap.stack_line();
+            if line != Some(p.lines[t] as i64) {
+                problems.push((format!("dap:{}:stack-trace-line", cmd), format!("{}: {} #{} (breakpoint on line {}) must stop on line {} but stackTrace reports {:?}", p.name, cmd, n, bp_line, p.lines[t], line)));
+            }
+            let x = dap.eval("cpu.x");
+            let expect = p.x[t];
+            let matches = x.as_ref().map_or(false, |s| {
+                let tt = s.trim().trim_start_matches('$');
+                i64::from_str_radix(tt, 16).ok() == Some(expect as i64) || s.trim().parse::<i64>().ok() == Some(expect as i64)
+            });
+            if !matches {
+                problems.push((format!("dap:{}:evaluate", cmd), format!("{}: after {} #{} (breakpoint on line {}, now on line {}) evaluate(cpu.x) = {:?}, the CPU's X is {}", p.name, cmd, n, bp_line, p.lines[t], x, expect)));
+            }
+            true
+        };
+        if step == Some(Step::Continues) {
+            let later: Vec<usize> = (first_idx + 1..p.lines.len()).filter(|i| p.lines[*i] == bp_line).collect();
+            for (n, t) in later.iter().enumerate() {
+                let _ = dap.request("continue", json!({"threadId": 1}));
+                if !check_stop(&mut dap, &mut problems, "continue", *t, n + 1) {
+                    break;
+                }
+            }
+        } else if step == Some(Step::Walk) {
+            // (the last position is the BRK: stepping it ends the test)
+            for t in first_idx + 1..p.lines.len() {
+                let _ = dap.request("stepIn", json!({"threadId": 1}));
+                if !check_stop(&mut dap, &mut problems, "stepIn-walk", t, t - first_idx) {
+                    break;
+                }
+            }
+        } else if let Some(st) = step {
             let (cmd, target) = match st {
                 Step::StepIn => ("stepIn", Some((first_idx + 1).min(p.lines.len() - 1))),
                 Step::Next => ("next", Some(p.next[first_idx])),
                 Step::StepOut => ("stepOut", p.step_out[first_idx]),
+                Step::Continues | Step::Walk => unreachable!(),
             };
             // the last position is the BRK: stepping it ends the test
             if let Some(t) = target {
@@ -305,7 +364,11 @@ pub fn conformance(ctx: &Ctx) -> u64 {
             if p.lines.iter().position(|l| *l == p.lines[idx]) != Some(idx) {
                 continue;
             }
-            for st in [None, Some(Step::StepIn), Some(Step::Next), Some(Step::StepOut)] {
+            for st in [None, Some(Step::StepIn), Some(Step::Next), Some(Step::StepOut), Some(Step::Continues), Some(Step::Walk)] {
+                // (continuing is a distinct session only where the line is reached again)
+                if st == Some(Step::Continues) && !p.lines[idx + 1..].contains(&p.lines[idx]) {
+                    continue;
+                }
                 work.push((pi, idx, st));
             }
         }
